@@ -1585,6 +1585,10 @@ func (gen *Generator) GeneratePackage(expressions []Sexp) error {
 	gen.Tail = false
 
 	gen.AddInstruction(AddScopeInstr{Name: pkgName})
+	// count the package scope, so that break/continue/tail calls
+	// compiled inside the body leave it too
+	gen.scopes++
+	defer func() { gen.scopes-- }()
 	gen.AddInstruction(PushStackmarkInstr{sym: symPkgName})
 
 	if size > 1 {
